@@ -17,6 +17,24 @@ CHECKS = {
         note='Trusts z3, the proxy classes (validated by concrete witness replay of sampled paths on the '
              'unshadowed implementation) and the host contract that approvers are participants.',
         design='3/C04', technique=TECH),
+    'C06': dict(
+        text='Every path of the real check_build_status / bypass_build_status is executed on symbolic statuses '
+             '(5 values per integration tip, 1-4 tips), symbolic bypass sources and build-key truthiness; z3 decides, per '
+             'path, outcome class == statement oracle for all values. A status read on any other commit or key is a fresh '
+             'unconstrained value, so reading the wrong tip is refuted.',
+        note='Trusts z3 and the SEnum proxy (validated by witness replay on the real function). History clause '
+             '(superseded tips) is covered by the symgit runs, not here.',
+        design='3/C06', technique=TECH),
+    'C18': dict(
+        text='The live regular expressions of every class tried by branch_factory are translated from their sre parse tree '
+             'to z3 regexes; classification (first match in factory order) is proved equal to an independently written '
+             'grammar per kind by two regex-inclusion queries each, generated w/, q/, q/w/ names are proved to land in their '
+             'class, and decomposition uniqueness follows from solver-checked structure + slash-freeness of the id and '
+             'version groups. No length bound; printable ASCII.',
+        note='Trusts z3 sequence theory and the sre->z3 translator (validated against re / branch_factory on solver-generated '
+             'members and non-members every run). Python backtracking choice of numeric sub-groups is tested on samples only.',
+        design='3/C18', technique='regex language inclusion/emptiness in z3 over the sre parse tree of the live patterns',
+        engine='rx2z3'),
 }
 
 NA_REASON = 'check not built yet in this revision of /verif (see DESIGN.md section 6 build order)'
@@ -47,7 +65,9 @@ def main():
                    baseline_off_cmd='cd /repo && /venv/bin/python -m pytest -ra -q -p no:cacheprovider --timeout=900 --continue-on-collection-errors',
                    source_commits=[], add_only=True),
         engines=[
-            dict(name='symx', path='symx/', serves_properties=sorted(CHECKS),
+            dict(name='rx2z3', path='rx2z3/', serves_properties=[p for p in sorted(CHECKS) if CHECKS[p].get('engine') == 'rx2z3'],
+                 kind_free_text='sre parse tree -> z3 regular expressions; language queries'),
+            dict(name='symx', path='symx/', serves_properties=[p for p in sorted(CHECKS) if CHECKS[p].get('engine', 'symx') == 'symx'],
                  kind_free_text='forking symbolic executor for real Python function objects on z3 proxies'),
         ],
         checks=checks,
